@@ -93,14 +93,15 @@ def cmpBound (mant : Nat) (exp : Int) (b : Nat) : Option Ordering :=
   if mag > 6 then some .gt
   else if mag < -3 then some .lt
   else
-    -- scale both sides to integers: v = mant·10^exp ; compare with b, and with b·(1 ± 1e-9)
+    -- scale both sides to integers: v = mant·10^exp ; compare with b, and with b·(1 ± 1e-14)
     let (l, r) : Nat × Nat :=
       if exp ≥ 0 then (mant * 10 ^ exp.toNat, b) else (mant, b * 10 ^ (-exp).toNat)
     if l == r then some .eq
     else
-      -- |v - b| < b·1e-9 ?   ⇔  |l - r|·1e9 < r
+      -- |v - b| < b·1e-14 ?   ⇔  |l - r|·1e14 < r     (a double has 15-16 significant digits: beyond 1e-14 relative the
+      -- correctly rounded `float(s)` compares with `b` exactly as the decimal does)
       let d := if l > r then l - r else r - l
-      if d * 1000000000 < r then none
+      if d * 100000000000000 < r then none
       else if l < r then some .lt else some .gt
 
 /-- is `lo ≤ float(s) ≤ hi` for the symmetric bound `b` (180 / 90)? -/
